@@ -244,9 +244,10 @@ def spell_cases(rng, tier):
                 o = odds[0]
                 directed = [[plain, plain, o, plain], [o, plain, o], [plain + q, o + q, plain + b"%3Fa=1", plain]]
                 if len(odds) > 1:
-                    directed.append([odds[1], o, plain, odds[1]])
+                    # two odd spellings of one path (hex digits in either case, another escaped byte), with and without the query
+                    directed.append([odds[1] + q, o + q, plain + q, odds[1] + q, o])
                 if tier == "quick":
-                    directed = [directed[0], rng.choice(directed[1:])]
+                    directed = [directed[0], rng.choice(directed[1:3])] + directed[3:]
                 for h in directed:
                     ops = [pipe.req(t, method=b"HEAD" if (j == 1 and rng.random() < 0.3) else b"GET") for j, t in enumerate(h)]
                     cases += mk_cases(rng, hs, ops, rng.random() < 0.5, "spell", nocache_run=(tier != "quick"), expect_wf=(mode != 1 or sp == 1))
@@ -368,6 +369,37 @@ def expand_cases(rng, tier):
     return cases
 
 
+def ovrules_cases(rng, tier):
+    """an override Prime (header x-int -> internal route /./int) on a host whose page AND internal route have vary rules on different
+    headers: the item of the internal route is keyed, and its variants are told apart, by the internal URI and ITS rules"""
+    cases = []
+    for rep in range(3 if tier == "quick" else 25):
+        tp = [(b"x-w", rng.choice([0, 1, 2]), b"dw")]
+        ti = [(b"x-v", rng.choice([0, 0, 1]), b"dv")] if rng.random() < 0.8 else []
+        hs = [pipe.H(b"/p", kind=3, body=b"page", spref=rng.choice([1, 2]), tuple_=tp, cpref=0),
+              pipe.H(b"/./int", kind=3, body=b"internal", spref=rng.choice([1, 2, 2]), tuple_=ti, cpref=0)]
+        vary = [pipe.vary_rule(b"/p", tp)] + ([pipe.vary_rule(b"/./int", ti)] if ti else [])
+        if rng.random() < 0.4:
+            vary.append(pipe.vary_rule(b"/*", [(b"x-u", 0, b"du")]))         # covered by the exact rules; applies to /./int when it has none
+            if not ti:
+                hs[1] = pipe.H(b"/./int", kind=3, body=b"internal", spref=2, tuple_=[(b"x-u", 0, b"du")], cpref=0)
+        X = (b"x-int", b"1")
+        if rep == 0:
+            ops = [pipe.req(b"/p", headers=[(b"x-w", b"a")]), pipe.req(b"/p", headers=[(b"x-w", b"zz")]),
+                   pipe.req(b"/p", headers=[X, (b"x-v", b"a"), (b"x-w", b"a")]), pipe.req(b"/p", headers=[X, (b"x-v", b"N"), (b"x-w", b"a")]),
+                   pipe.req(b"/p", headers=[X, (b"x-v", b"a"), (b"x-w", b"zz")]), pipe.req(b"/p", headers=[(b"x-w", b"a"), (b"x-v", b"N")])]
+        else:
+            ops = []
+            for j in range(rng.randrange(4, 10)):
+                if rng.random() < 0.06:
+                    ops.append(pipe.clear_page(rng.choice([b"/p", b"/./int"])))
+                    continue
+                hd = [(n, rng.choice([b"a", b"zz", b"N", b"abc"])) for n in (b"x-w", b"x-v", b"x-u") if rng.random() < 0.7]
+                ops.append(pipe.req(b"/p", method=rng.choice([b"GET", b"GET", b"GET", b"HEAD", b"POST"]), headers=hd + ([X] if rng.random() < 0.5 else [])))
+        cases += mk_cases(rng, hs, ops, False, "ovrules", vary=vary, pair=True, nocache_run=(tier != "quick"), expect_wf=True, ovprime=[xb(b"x-int"), xb(b"/./int")])
+    return cases
+
+
 def mk_cases(rng, hs, ops, default_ext, kind, xhs=(), vary=(), pair=True, run=True, nocache_run=True, expect_wf=False, **cfgkw):
     """expect_wf: the configuration is built to lie inside the domain of theorem fixture_cache_transparent (Model/CacheRules.v wf_fixture,
     evaluated by the model side as component pipex.wf); a scenario that does not is a generator error, reported loudly"""
@@ -433,6 +465,7 @@ def generate(rng, tier):
     cases += spell_cases(rng, tier)
     cases += rules_cases(rng, tier)
     cases += expand_cases(rng, tier)
+    cases += ovrules_cases(rng, tier)
     nhist = 230 if tier == "quick" else 5000
     for i in range(nhist):
         prefs = [rng.choice([0, 1, 2]) for _ in range(3)]
